@@ -6,7 +6,7 @@ CONSTANTS
   NegAttempts = 3
   MaxLoss = 2
   MaxNegLoss = 3
-  MaxRestarts = 2
+  MaxRestarts = 1
   PeerModes <- ModesAll
   DenyReplies <- DenyOne
   AckTails <- TailsRssi
